@@ -55,6 +55,15 @@ def r1(ctx):
             ln = vf.expr(fn, c.args[2])
             ctx.check(ln == ("c", total) and not extra and al["elsize"] == total, "C05.R1", "%s:bytes-sent" % fname, c.loc(),
                       "sends %s bytes of a %d-byte struct (RFC: %d)" % (vf.show(ln), al["elsize"], total), key="C05.R1:%s:len" % fname)
+        # the function sends its own kind of query on every path, whatever the socket holds (serial 0 is a serial like any other:
+        # the choice between the two queries is made by the state machine, R5) - exactly one PDU, no other sender called
+        other = "rtr_send_reset_query" if fname == "rtr_send_serial_query" else "rtr_send_serial_query"
+        outs_q, _f = es.count_effects(fn, pdb, lambda i, E, st_, other=other: (["send"] if i.op == "call" and i.callee == "rtr_send_pdu" else
+                                                                                (["other-query"] if i.op == "call" and i.callee == other else None)), None)
+        badq = [o for o in outs_q if o["counts"].get("send", 0) != 1 or o["counts"].get("other-query")]
+        ctx.check(bool(outs_q) and not badq, "C05.R1", "%s:one-pdu-of-its-own-kind-on-every-path" % fname, "%s:%d" % (fn.relfile, fn.line),
+                  ("a path sends %d PDU(s) itself and calls %s %d time(s)" % (badq[0]["counts"].get("send", 0), other, badq[0]["counts"].get("other-query", 0))) if badq else
+                  "every path sends exactly the PDU assembled here", key="C05.R1:%s:own-kind" % fname)
 
 
 def r2(ctx, retsets):
@@ -254,6 +263,42 @@ def _same_region(fn, a, b):
            (fn.bdom(b.block.id, a.block.id) and fn.bpdom(a.block.id, b.block.id))
 
 
+def r5_error_codes(ctx, retsets):
+    """what an Error Report from the cache leads to depends on its code alone: 'No Data Available' always ends in the state whose arm forces
+    a Reset Query (whether or not a session existed), 'Unsupported Protocol Version' in a downgrade or FATAL, everything else in FATAL"""
+    pdb = ctx.pdb
+    fn = pdb.fn("rtr_handle_error_pdu")
+    ctx.touch(fn)
+    st = pdb.enum("rtr_socket_state")
+    inv = {v: k for k, v in st.items()}
+    for code in range(0, 10):
+        states = set()
+
+        def values(pe, code=code):
+            return code if vf.last_field(pe) == "pdu_error.error_code" else None
+
+        def classify(inst, E, st_):
+            if inst.op == "call" and inst.callee == fsm.CHANGE:
+                v = flow.av_single(E.val(inst.args[1]))
+                states.add(v)
+                return ["state"]
+            return None
+        outs, _f = es.count_effects(fn, pdb, classify, retsets, values=values)
+        if code == rfc8210.ERROR_CODES["no data available"]:
+            want = {st["RTR_ERROR_NO_DATA_AVAIL"]}
+            good = states == want
+        elif code == rfc8210.ERROR_CODES["unsupported protocol version"]:
+            want = {st["RTR_FAST_RECONNECT"], st["RTR_ERROR_FATAL"]}
+            good = bool(states) and states <= want
+        else:
+            want = {st["RTR_ERROR_FATAL"]}
+            good = states == want
+        good = good and bool(outs) and all(o["counts"].get("state") == 1 for o in outs)
+        ctx.check(good, "C05.R5", "error-report[code %d]" % code, "%s:%d" % (fn.relfile, fn.line),
+                  "socket state after the report: %s (expected %s, exactly one state change on every path)" % (
+                      sorted(inv.get(x, str(x)) for x in states), sorted(inv[x] for x in want)), key="C05.R5:error-code:%d" % code)
+
+
 def r6(ctx, retsets):
     pdb = ctx.pdb
     ctx.rule("C05.R6", "write discipline: request_session_id = false only after the payload was received successfully; "
@@ -308,6 +353,7 @@ def check(ctx):
     r3(ctx, retsets)
     r4(ctx, retsets)
     r5(ctx, retsets)
+    r5_error_codes(ctx, retsets)
     r6(ctx, retsets)
     from specs import C03
     with ctx.shared({"C03.R2": ("C05.R7", "the serial number of End of Data is stored on every path that completes the response (unconditionally, "
